@@ -13,6 +13,7 @@ This module knows nothing about PyPlate.
 from __future__ import annotations
 
 import re
+import sys
 
 import builtins
 import time
@@ -21,6 +22,11 @@ from fractions import Fraction
 import numpy as _np
 import sympy as sp
 import z3
+
+# exact rational coefficients can have tens of thousands of digits (programs that dilute and then dissolve): no limit on
+# int <-> str conversion (CPython's default of 4300 digits crashed one worker of the thorough C09 tier)
+if hasattr(sys, 'set_int_max_str_digits'):
+    sys.set_int_max_str_digits(0)
 from sympy import QQ
 
 _real_float = builtins.float
